@@ -89,4 +89,30 @@ theorem widen_toNat (b : UInt32) : (widen b).toNat = widenNat b.toNat := by
   unfold widenNat
   omega
 
+set_option exponentiation.threshold 1100 in
+/-- The double made from a character ordinal (any integer below 2^53) is that integer. -/
+theorem natToDouble_exact (n : Nat) (hn : n < 2 ^ 53) :
+    natToDouble n < 2 ^ 63 ∧ exp64 (natToDouble n) ≠ 2047 ∧
+    scaledMag64 (exp64 (natToDouble n)) (man64 (natToDouble n)) = n * 2 ^ 1074 := by
+  by_cases hn0 : n = 0
+  · subst hn0
+    simp [natToDouble, exp64, man64, scaledMag64]
+  · obtain ⟨hk, hlo, hhi⟩ := norm53 n hn0 hn
+    have hv : natToDouble n = (1023 + Nat.log2 n) * 2 ^ 52 + (n * 2 ^ (52 - Nat.log2 n) - 2 ^ 52) := by
+      unfold natToDouble
+      rw [if_neg hn0]
+      simp only []
+      rw [if_pos hk]
+      omega
+    obtain ⟨f1, f2, f3⟩ := fields64 0 (1023 + Nat.log2 n) (n * 2 ^ (52 - Nat.log2 n) - 2 ^ 52)
+      (by omega) (by omega) (by omega)
+    rw [Nat.zero_mul, Nat.zero_add] at f1 f2 f3
+    rw [hv, f2, f3]
+    refine ⟨by omega, by omega, ?_⟩
+    unfold scaledMag64
+    rw [if_neg (by omega)]
+    have e1 : 2 ^ 52 + (n * 2 ^ (52 - Nat.log2 n) - 2 ^ 52) = n * 2 ^ (52 - Nat.log2 n) := by omega
+    have e2 : 1074 = (52 - Nat.log2 n) + (1023 + Nat.log2 n - 1) := by omega
+    rw [e1, Nat.mul_assoc, ← Nat.pow_add, ← e2]
+
 end CffiVerif.FloatStore
